@@ -2,7 +2,7 @@
     Only theorem statements; every proof is [exact <lemma>]. *)
 From Coq Require Import Permutation Sorting.Sorted.
 From CG3 Require Import Lib.PyZ Model.AnnotDb Spec.AnnotDbSpec Proofs.AnnotDbProofs.
-From CG3 Require Import Model.AnnotDbGff Proofs.AnnotDbGffProofs.
+From CG3 Require Import Model.AnnotDbGff Proofs.AnnotDbGffProofs Proofs.AnnotDbGffMergeProofs Proofs.AnnotDbCountProofs.
 From CG3gen Require Import OverlapGen.
 
 (** the 4-clause SQL overlap test the current source emits is interval overlap *)
@@ -62,22 +62,54 @@ Proof. exact update_multiset. Qed.
 
 (** ---------- GFF text loaded in blocks of [lines_per_block] lines ----------
     [load fixed N lines]: the loop of [_db_from_gff] over [iter_line_blocks]
-    with the fake-id counter, the set of seen names and the span merging;
-    [fixed] selects the rule for a name met again in a later block (as first
-    read / as repaired, see Model/AnnotDbGff.v). *)
+    with the fake-id counter, the set of seen names and the span merging.
+    [fixed = true] is the rule in the source since commit 8412cc0a1 (a name met
+    again in a later block has its rows merged into the stored record and
+    start/stop recomputed); [fixed = false] is the rule before that commit
+    (finding C17-3).  The check establishes on every run which of the two the
+    source under test follows (harness/props/c17.py, GB_PROBE). *)
 
-(** when no two rows share an ID the table is the one-record-per-row table of
-    the text, for every block size and both rules (induction over the blocks;
-    the carried counter keeps the names of ID-less rows apart) *)
+(** the table is the one the text describes — one record per distinct name in
+    order of first appearance — for EVERY block size, provided no feature
+    repeats a span (induction over the blocks) *)
+Theorem gff_load_is_table_of_text : forall N lines,
+  distinct_spans (assign 0 (data_lines lines)) ->
+  st_db (load true N lines) = table_of (assign 0 (data_lines lines)).
+Proof. exact load_fixed_table. Qed.
+
+Theorem gff_load_independent_of_lines_per_block : forall N N' lines,
+  distinct_spans (assign 0 (data_lines lines)) ->
+  st_db (load true N lines) = st_db (load true N' lines).
+Proof. exact load_fixed_independent. Qed.
+
+(** what that table holds: the columns of the first row of the name, the sorted
+    converted coordinates of all its rows, start/stop their extremes; one row per name *)
+Theorem gff_table_rows : forall al r,
+  In r (table_of al) ->
+  exists q, In q al /\ gr_name r = fst q /\ gr_line r = snd q /\
+            gr_spans r = sort_spans (grp al (fst q)) /\ Permutation (gr_spans r) (grp al (fst q)) /\
+            gr_start r = spans_min (gr_spans r) /\ gr_stop r = spans_max (gr_spans r).
+Proof. exact table_of_row. Qed.
+
+Theorem gff_table_names : forall al,
+  NoDup (map gr_name (table_of al)) /\ (forall n, In n (map fst al) <-> In n (map gr_name (table_of al))).
+Proof. exact table_of_names. Qed.
+
+(** the hypothesis is needed: a row repeated verbatim in a later block is absorbed by
+    [_merge_spans] (numpy.unique), in one block it is kept *)
+Theorem gff_repeated_row_refuted : st_db (load true 1 dup_file) <> st_db (load true 2 dup_file).
+Proof. exact repeated_row_depends_on_block_size. Qed.
+
+(** start/stop = extremes of the spans, for every file (no hypothesis) and every block size *)
+Theorem gff_extent_invariant : forall N lines, Forall extent_ok (st_db (load true N lines)).
+Proof. exact load_fixed_extent. Qed.
+
+(** when no two rows share an ID the table is the one-record-per-row table,
+    under either rule (the carried counter keeps the names of ID-less rows apart) *)
 Theorem gff_load_one_record_per_row : forall fixed N lines,
   NoDup (real_ids (data_lines lines)) ->
   st_db (load fixed N lines) = rows_of_lines (data_lines lines).
 Proof. exact load_distinct_ids. Qed.
-
-Theorem gff_load_independent_of_lines_per_block_partial : forall fixed fixed' N N' lines,
-  NoDup (real_ids (data_lines lines)) ->
-  st_db (load fixed N lines) = st_db (load fixed' N' lines).
-Proof. exact load_independent_of_block_size. Qed.
 
 Theorem gff_fake_id_counter_carried_across_blocks : forall fixed N lines,
   NoDup (real_ids (data_lines lines)) -> st_k (load fixed N lines) = nfake (data_lines lines).
@@ -91,25 +123,18 @@ Theorem gff_row_record : forall n l,
   gr_start r = gl_s l - 1 /\ gr_stop r = gl_e l.
 Proof. exact row_of_line. Qed.
 
-(** the full statement (no hypothesis on IDs) is false of the rule as first
-    read: a feature whose rows fall into different blocks is stored twice and
-    the first record keeps a stale start/stop (finding C17-3) *)
-Definition stmt_gff_load_independent_of_lines_per_block : Prop :=
+(** the rule before commit 8412cc0a1 (finding C17-3): a feature whose rows fall into
+    different blocks was stored twice and the first record kept a stale start/stop *)
+Definition stmt_gff_load_independent_before_fix : Prop :=
   forall N N' lines, 0 < N -> 0 < N' -> st_db (load false N lines) = st_db (load false N' lines).
 
-Theorem gff_load_independent_of_lines_per_block_refuted :
+Theorem gff_load_before_fix_refuted :
   exists N N' lines, 0 < N /\ 0 < N' /\ st_db (load false N lines) <> st_db (load false N' lines).
 Proof. exact split_feature_depends_on_block_size. Qed.
 
-Theorem gff_split_feature_extent_refuted :
+Theorem gff_split_feature_extent_before_fix_refuted :
   exists r, In r (st_db (load false 2 split_file)) /\ gr_stop r <> spans_max (gr_spans r).
 Proof. exact split_feature_stale_extent. Qed.
-
-(** the repaired rule on the witness *)
-Theorem gff_split_feature_repaired :
-  st_db (load true 2 split_file) = st_db (load true 3 split_file) /\
-  Forall (fun r => gr_start r = spans_min (gr_spans r) /\ gr_stop r = spans_max (gr_spans r)) (st_db (load true 2 split_file)).
-Proof. exact split_feature_repaired. Qed.
 
 (** ---------- stored rows: start/stop are the extremes of the spans (GFF and GenBank loaders) ---------- *)
 Theorem gff_row_start_stop : forall seqid bt nm strand attrs lines,
@@ -185,8 +210,27 @@ Theorem rich_dict_roundtrip_preserves_queries : forall tables db q,
   gcount tables (from_rich (to_rich tables db)) q = gcount tables db q.
 Proof. exact rich_roundtrip_query. Qed.
 
-(** under the repaired rule every stored row keeps start/stop = extremes of its spans,
-    for every file and every block size (false of the rule as first read, see
-    [gff_split_feature_extent_refuted]) *)
-Theorem gff_repaired_rule_extent_invariant : forall N lines, Forall extent_ok (st_db (load true N lines)).
-Proof. exact load_fixed_extent. Qed.
+(** ---------- count_distinct = GROUP BY over the records a scan selects ---------- *)
+Theorem count_distinct_result : forall tables db sa ba na,
+  is_col sa || is_col ba || is_col na = true ->
+  count_distinct tables db sa ba na = Some (flat_map (fun t => cd_rows t db sa ba na) tables).
+Proof. exact count_distinct_tables. Qed.
+
+(** each reported count is the number of selected records of that table carrying that key *)
+Theorem count_distinct_counts_are_scan_counts : forall t db sa ba na k n,
+  In (k, n) (cd_rows t db sa ba na) ->
+  n = zlen (filter (fun r => key_eqb k (cd_key sa ba na r)) (filter (cd_match sa ba na) (rows_of t db))).
+Proof. exact cd_rows_sound. Qed.
+
+(** every selected record is counted under its key, keys are reported once, counts add up to num_matches *)
+Theorem count_distinct_complete : forall t db sa ba na r,
+  In r (rows_of t db) -> cd_match sa ba na r = true ->
+  exists n, In (cd_key sa ba na r, n) (cd_rows t db sa ba na) /\ 0 < n.
+Proof. exact cd_rows_complete. Qed.
+
+Theorem count_distinct_keys_distinct : forall t db sa ba na, NoDup (map fst (cd_rows t db sa ba na)).
+Proof. exact cd_rows_keys_distinct. Qed.
+
+Theorem count_distinct_total : forall t db sa ba na,
+  zsum (map snd (cd_rows t db sa ba na)) = zlen (filter (cd_match sa ba na) (rows_of t db)).
+Proof. exact cd_rows_total. Qed.
